@@ -444,6 +444,7 @@ package index
 //@   end
 
 //@ func New
+//@   ensures every_call_builds_a_new_index [C03,C05,C11]: err == nil ==> freshobj(result0)
 //@   ensures sorted_for_0x0400 [C05,C11]: codec == 1024 ==> err == nil && typeis(result0, "*v2/index.multiWidthIndex")
 //@   ensures mh_sorted_for_0x0401 [C05,C11]: codec == 1025 ==> err == nil && typeis(result0, "*v2/index.MultihashIndexSorted")
 //@   ensures other_codecs_rejected [C09,C11]: codec != 1024 && codec != 1025 ==> err != nil && result0 == nil
@@ -455,6 +456,7 @@ package index
 //@   end
 
 //@ func newSorted
+//@   ensures every_call_builds_a_new_index [C03,C11]: freshobj(result)
 //@   ensures kind [C05,C11]: result != nil && typeis(result, "*v2/index.multiWidthIndex")
 
 //@ func NewMultihashSorted
